@@ -310,13 +310,19 @@ class Ctx:
         if z3.is_false(e):
             raise PathAbort("assume(false)")
         self.pc.append(e)
-        core = e
-        neg = False
-        while z3.is_not(core):
-            core = core.arg(0)
-            neg = not neg
-        self.decided[core.get_id()] = not neg
-        self.keep.append(core)
+        stack = [e]
+        while stack:
+            c = stack.pop()
+            if z3.is_and(c):
+                stack.extend(c.children())
+                continue
+            core = c
+            neg = False
+            while z3.is_not(core):
+                core = core.arg(0)
+                neg = not neg
+            self.decided[core.get_id()] = not neg
+            self.keep.append(core)
         if not check:
             self.model_valid = False
             return
@@ -410,6 +416,24 @@ class Ctx:
         if m is None:
             return None
         return z3val_to_float(m.eval(e, model_completion=True))
+
+    def known(self, e):
+        """Truth value of z3 Bool `e` if it is already decided on this path (syntactically), else None."""
+        if isinstance(e, bool):
+            return e
+        e = z3.simplify(e)
+        if z3.is_true(e):
+            return True
+        if z3.is_false(e):
+            return False
+        neg = False
+        while z3.is_not(e):
+            e = e.arg(0)
+            neg = not neg
+        v = self.decided.get(e.get_id())
+        if v is None:
+            return None
+        return v != neg
 
     def event(self, kind, **kw):
         self.events.append(dict(kind=kind, **kw))
